@@ -14,6 +14,9 @@
  */
 #include "vdrv.h"
 #include <errno.h>
+#include <signal.h>
+#include <unistd.h>
+#include <sys/time.h>
 #include <limits.h>
 #include <math.h>
 #include "muggle/c/base/utils.h"
@@ -79,13 +82,31 @@ static void report_path(int rc, unsigned char *buf, unsigned int size)
 	printf("\n");
 }
 
+/* watchdog: a call that does not return within 2 s (e.g. a loop that never advances) ends the
+ * process at once, so the check sees a crashed case instead of waiting for the batch timeout */
+static void on_alarm(int sig)
+{
+	(void)sig;
+	static const char msg[] = "runtime error: HANG watchdog: the call did not return within 2 s\n";
+	if (write(2, msg, sizeof(msg) - 1) < 0) {}
+	_exit(97);
+}
+static void arm(int sec)
+{
+	struct itimerval it;
+	memset(&it, 0, sizeof(it));
+	it.it_value.tv_sec = sec;
+	signal(SIGALRM, on_alarm);
+	setitimer(ITIMER_REAL, &it, NULL);
+}
 static void case_begin(void) {}
-static void case_end(void) {}
+static void case_end(void) { arm(0); }
 
 static void case_line(char *line)
 {
 	split(line);
 	if (ntok == 0) return;
+	arm(2);
 	const char *op = tok[0];
 	if (strcmp(op, "npo2") == 0 && ntok >= 2) {
 		printf("%" PRIu64 "\n", muggle_next_pow_of_2(strtoull(tok[1], NULL, 10)));
